@@ -19,6 +19,8 @@ def install(B, LenV):
         f = I.uover(x, "__len__")
         if f is not None:
             return I.call(f, [x], {})
+        if isinstance(x, ClassV) and "_enum_members_" in x.dict:
+            return len(x.dict["_enum_members_"])
         if isinstance(x, Seq):
             if x.has_seg():
                 return LenV(sum(1 for i in x.items if type(i) is not Seg))
@@ -55,6 +57,8 @@ def install(B, LenV):
             if not isinstance(k, ClassV):
                 raise Raised(self.mkexc("TypeError", "isinstance() arg 2 must be a type"))
             if t.issub(k):
+                return True
+            if type(o).__name__ == "EnumInt" and k is self.types["int"]:
                 return True
             if k.name == "Callable" and isinstance(o, (Func, Bound, Builtin, Callback, ClassV)):
                 return True
@@ -187,8 +191,7 @@ def install(B, LenV):
     @method
     def f_next(self, I, it, default=MISSING):
         if isinstance(it, GenV):
-            I.run_gen(it)
-            if it.pos < len(it.trace):
+            if (it.trace is not None and it.pos < len(it.trace)) or I.gen_step(it):
                 it.pos += 1
                 return it.trace[it.pos - 1]
             if it.exc is not None:
@@ -891,7 +894,9 @@ def install(B, LenV):
         f.log.append(("call", f.name, list(args), dict(kw)))
         if f.name.endswith("Error") or f.name.endswith("Exception"):
             raise Unknown(f"external exception class {f.name}")
-        return ExtV(f.name + "()", log=f.log)
+        r = ExtV(f.name + "()", log=f.log)
+        r.opaque_result = True       # nothing is known about it: using it as a condition is UNDECIDED
+        return r
 
     @method
     def extern_class(self, ext):
@@ -1426,6 +1431,44 @@ def _itemgetter(B, I, k):
     return Builtin("itemgetter", lambda I_, o: I_.getitem(o, k))
 
 
+def _op(name):
+    import ast as _ast
+
+    def run(B, I, *a):
+        if name == "is_":
+            return I.identical(a[0], a[1])
+        if name == "is_not":
+            return not I.identical(a[0], a[1])
+        if name == "eq":
+            return I.eq(a[0], a[1])
+        if name == "ne":
+            return not I.eq(a[0], a[1])
+        if name == "not_":
+            return not I.truth(a[0])
+        if name == "truth":
+            return I.truth(a[0])
+        if name == "contains":
+            return I.contains(a[0], a[1])
+        if name == "getitem":
+            return I.getitem(a[0], a[1])
+        if name == "setitem":
+            return I.setitem(a[0], a[1], a[2])
+        if name == "delitem":
+            return I.delitem(a[0], a[1])
+        if name == "index":
+            if isinstance(a[0], int):
+                return int(a[0])
+            raise Unknown("operator.index of a non-int")
+        ops = {"lt": _ast.Lt, "le": _ast.LtE, "gt": _ast.Gt, "ge": _ast.GtE}
+        if name in ops:
+            return B.order(I, ops[name](), a[0], a[1])
+        bins = {"add": _ast.Add, "sub": _ast.Sub, "mul": _ast.Mult, "or_": _ast.BitOr, "and_": _ast.BitAnd}
+        if name in bins:
+            return B.binop(I, bins[name](), a[0], a[1])
+        raise Unknown("operator." + name)
+    return run
+
+
 def _ordered_dict(B, I, *a, **k):
     return B.b_dict(I, *a, **k)
 
@@ -1462,6 +1505,7 @@ _EXT_FUNCS = {
     "functools.partial": _partial,
     "itertools.islice": _islice,
     "operator.attrgetter": _attrgetter,
+    **{"operator." + n_: _op(n_) for n_ in ("is_", "is_not", "eq", "ne", "not_", "truth", "contains", "getitem", "setitem", "delitem", "index", "lt", "le", "gt", "ge", "add", "sub", "mul", "or_", "and_")},
     "operator.itemgetter": _itemgetter,
     "collections.OrderedDict": _ordered_dict,
 }
